@@ -205,14 +205,23 @@ def cond_atoms(t):
 
 
 def assignments(atoms, N, with_unordered=False):
-    """enumerate consistent truth assignments for condition atoms"""
+    """enumerate consistent truth assignments for condition atoms.
+    Comparison atoms are grouped by their canonical difference D = x - y (sign-normalised, so `a < b`, `b > a`,
+    `a - b < 0`, `n + 1 == 1` and `n == 0` fall into one group) and each group takes one outcome of D in
+    {< 0, == 0, > 0}; other boolean atoms are independent."""
     groups = {}
     free = []
     for a in atoms:
         if a[0] in ("<", "<=", "=="):
-            ka, kb = N.key(a[1]), N.key(a[2])
-            g = tuple(sorted([ka, kb], key=repr))
-            groups.setdefault(g, []).append((a, ka == g[0]))
+            try:
+                d = N.rat(a[1]) - N.rat(a[2])
+                c = d.canon()
+                fwd = c.n.lead() > 0 if not c.n.is_zero() else True
+                g = d.key(abs_sign=True)
+            except Exception:
+                free.append(a)
+                continue
+            groups.setdefault(g, []).append((a, fwd, d.n.is_zero()))
         else:
             free.append(a)
     gkeys = list(groups)
@@ -220,9 +229,9 @@ def assignments(atoms, N, with_unordered=False):
     for combo in itertools.product(outcomes, repeat=len(gkeys)):
         base = {}
         for g, oc in zip(gkeys, combo):
-            for a, fwd in groups[g]:
+            for a, fwd, iszero in groups[g]:
                 o = oc if fwd else {"lt": "gt", "gt": "lt"}.get(oc, oc)
-                if g[0] == g[1]:
+                if iszero:
                     o = "eq" if oc != "un" else "un"
                 base[a] = {"<": o == "lt", "<=": o in ("lt", "eq"), "==": o == "eq"}[a[0]]
         for vals in itertools.product([True, False], repeat=len(free)):
